@@ -1,6 +1,7 @@
 package props
 
 import (
+	"strings"
 	cbg "github.com/whyrusleeping/cbor-gen"
 	"bytes"
 	"context"
@@ -27,6 +28,12 @@ import (
 func init() { Registry["C10"] = runC10 }
 
 func c10Cid(r *rand.Rand) cid.Cid {
+	if r.Intn(12) == 0 {
+		// identity-hashed CIDs carry their content inline and can be long
+		n := []int{0, 1, 36, 200, 480, 500, 503, 504, 505, 506, 507, 508, 509, 510, 520, 600, 2000}[r.Intn(17)]
+		mh, _ := multihash.Sum(rbytes(r, n), multihash.IDENTITY, -1)
+		return cid.NewCidV1([]uint64{cid.Raw, cid.DagCBOR, cid.DagJSON}[r.Intn(3)], mh)
+	}
 	if r.Intn(5) == 0 {
 		mh, _ := multihash.Sum(rbytes(r, 10), multihash.SHA2_256, -1)
 		return cid.NewCidV0(mh)
@@ -135,6 +142,7 @@ func c10RoundTrip(c *vf.Ctx) {
 		return
 	}
 	n := c.N(40000, 500000)
+	var reused message.Message // decode target that is used again and again (as a receive loop may do)
 	for i := 0; i < n; i++ {
 		if !c.Mine(sub, i) {
 			continue
@@ -143,9 +151,31 @@ func c10RoundTrip(c *vf.Ctx) {
 		m, kinds := c10GenMsg(r, false)
 		c.Cur(sub, i, fmt.Sprint(kinds))
 		wit := func() any { return msgWitness(&m, nil) }
+		if r.Intn(5) == 0 {
+			// an encode that the encoder refuses part-way (it must leave nothing behind for the next one)
+			bad := m
+			switch r.Intn(3) {
+			case 0:
+				bad.Cid = cid.Undef
+			case 1:
+				bad.OrigPeer = strings.Repeat("Q", 8193+r.Intn(100))
+			default:
+				bad.Addrs = append(append([][]byte(nil), m.Addrs...), make([]byte, 2<<20+1))
+			}
+			var sink bytes.Buffer
+			if err := bad.MarshalCBOR(&sink); err == nil {
+				c.Inc("encodes_expected_to_be_refused_but_accepted")
+			} else {
+				c.Inc("refused_encodes_before_a_valid_one")
+			}
+		}
 		c.Guard(sub, i, wit, func() {
 			var buf bytes.Buffer
 			if err := m.MarshalCBOR(&buf); err != nil {
+				if len(m.Cid.Bytes()) > 400 {
+					c.Inc("long_cid_refused_by_the_encoder") // outside the encoder's size caps
+					return
+				}
 				c.Fail(sub, i, "cbor-marshal-error", err.Error(), wit())
 				return
 			}
@@ -162,6 +192,12 @@ func c10RoundTrip(c *vf.Ctx) {
 				c.Fail(sub, i, "cbor-roundtrip-error", err.Error(), wit())
 			} else if df := msgDiff(&m, &d); df != "" {
 				c.Fail(sub, i, "cbor-roundtrip-differs:"+df, "", wit())
+			}
+			// decoding into a message value that held another message before gives the same result
+			if err := reused.UnmarshalCBOR(bytes.NewReader(enc)); err != nil {
+				c.Fail(sub, i, "cbor-roundtrip-error:into-a-used-message", err.Error(), wit())
+			} else if df := msgDiff(&m, &reused); df != "" {
+				c.Fail(sub, i, "cbor-roundtrip-differs:into-a-used-message:"+df, "", wit())
 			}
 			// the same bytes arriving in pieces (as they do from a network) decode to the same message
 			for rk, rd := range map[string]io.Reader{"half": iotest.HalfReader(bytes.NewReader(enc)), "onebyte": iotest.OneByteReader(bytes.NewReader(enc)), "datared": iotest.DataErrReader(bytes.NewReader(enc))} {
@@ -297,6 +333,10 @@ func c10Senders(c *vf.Ctx) {
 				err = s.SendJson(context.Background(), m)
 			} else {
 				err = s.Send(context.Background(), m)
+			}
+			if err != nil && !useJSON && len(m.Cid.Bytes()) > 400 {
+				c.Inc("long_cid_refused_by_the_encoder") // outside the encoder's size caps
+				return
 			}
 			if err != nil {
 				c.Fail(sub, i, "send-error", err.Error(), wit())
@@ -475,10 +515,10 @@ func c10Crafted(c *vf.Ctx) {
 				r := c.Rand(sub, i)
 				desc := fmt.Sprintf("field=%s declared-length=%d declared-bytes-present=%v", f.name, L, present)
 				c.Cur(sub, i, desc)
-				base, _ := c10GenMsg(r, false)
+				_, _ = c10GenMsg(r, false)
 				var in bytes.Buffer
 				in.Write(cborHdr(4, 4)) // array of 4
-				_ = cbg.WriteCid(&in, base.Cid)
+				_ = cbg.WriteCid(&in, randCid(r))
 				fill := func(n uint64) {
 					if present {
 						in.Write(rbytes(r, int(n)))
